@@ -618,6 +618,10 @@ func (p *parser) parseEscape(opts CharsetOptions, standalone bool) charset {
 					p.error("invalid escape sequence", start, p.scanOffset)
 					return nil
 				}
+				if r > unicode.MaxRune {
+					p.error("invalid escape sequence (exceeds unicode.MaxRune)", start, p.scanOffset)
+					return nil
+				}
 				r = r<<4 + d
 				p.next()
 				if p.ch == '}' {
@@ -630,6 +634,10 @@ func (p *parser) parseEscape(opts CharsetOptions, standalone bool) charset {
 				d := hexval(p.ch)
 				if d == -1 {
 					p.error("invalid escape sequence", start, p.scanOffset)
+					return nil
+				}
+				if r > unicode.MaxRune {
+					p.error("invalid escape sequence (exceeds unicode.MaxRune)", start, p.scanOffset)
 					return nil
 				}
 				r = r<<4 + d
